@@ -487,18 +487,39 @@ Fixpoint sval_depth (v : sval) : nat :=
   | _ => O
   end.
 
-(** the values the round-trip theorem is about *)
+(** the values the round-trip theorem is about (decidable): integers that fit i64 or u64, finite doubles,
+    strings and keys that are UTF-8 (every Rust [String] is), fewer than 128 nested containers *)
+Definition int_in_rangeb (z : Z) : bool := ((- 9223372036854775808 <=? z) && (z <? 18446744073709551616))%Z.
 Definition int_in_range (z : Z) : Prop := (- 9223372036854775808 <= z < 18446744073709551616)%Z.
-Fixpoint sval_wf (v : sval) : Prop :=
+Fixpoint sval_wfb (v : sval) : bool :=
   match v with
-  | SInt z => int_in_range z
-  | SF64 b => wf_f64 b
-  | SStr s => utf8_valid s
-  | SSeq l => fold_right (fun x a => sval_wf x /\ a) True l
-  | SMap l => fold_right (fun kx a => utf8_valid (fst kx) /\ sval_wf (snd kx) /\ a) True l
-  | _ => True
+  | SInt z => int_in_rangeb z
+  | SF64 b => f64_finiteb b
+  | SStr s => utf8_validb s
+  | SSeq l => forallb sval_wfb l
+  | SMap l => forallb (fun kx => utf8_validb (fst kx) && sval_wfb (snd kx)) l
+  | _ => true
   end.
-Definition sval_ok (v : sval) : Prop := sval_wf v /\ (sval_depth v < recursion_limit)%nat.
+Definition sval_okb (v : sval) : bool := sval_wfb v && (sval_depth v <? recursion_limit)%nat.
+Definition sval_wf (v : sval) : Prop := sval_wfb v = true.
+Definition sval_ok (v : sval) : Prop := sval_okb v = true.
+
+(** the doubles that occur in a value *)
+Fixpoint sval_floats (v : sval) : list Z :=
+  match v with
+  | SF64 b => [b]
+  | SSeq l => flat_map sval_floats l
+  | SMap l => flat_map (fun kx => sval_floats (snd kx)) l
+  | _ => []
+  end.
+
+(** THE hypothesis of the text-layer theorems, about one double [b] and the (third-party) pair
+    ryu printer [fmt] / serde_json number parser [parse]: the printed token is a JSON number with a
+    fraction or an exponent (so that it is read as a float, not as an integer), and reading it gives [b] back *)
+Definition float_pair_okb (fmt : Z -> string) (parse : string -> option Z) (b : Z) : bool :=
+  float_tokenb (fmt b) && match parse (fmt b) with Some b' => (b' =? b)%Z | None => false end.
+Definition float_pair_ok (fmt : Z -> string) (parse : string -> option Z) (b : Z) : Prop :=
+  float_token (fmt b) /\ parse (fmt b) = Some b.
 
 (** * textwrap::dedent (0.14.2) *)
 
@@ -658,6 +679,8 @@ Definition dedent (s : string) : string :=
 (** [SerializationFormat::Json.from_str] of layout21utils: dedent, then parse *)
 Definition json_from_str (parse_f64 : string -> option Z) (fuel : nat) (s : string) : jres :=
   json_parse parse_f64 fuel (dedent s).
+Definition json_from_str_text (parse_f64 : string -> option Z) (s : string) : jres :=
+  json_parse_text parse_f64 (dedent s).
 
 (** * A line-structure automaton (used to state what dedent needs of a text): every line is some
     spaces followed by a printable ASCII byte, there is no carriage return, and the text does not end in
